@@ -275,3 +275,94 @@ func runSMOnce(c *Ctx, s *Sink) {
 		s.Pass(nil, key, fd.Pos(), "on every path the annotations are (re)copied from the source before the single shift")
 	}
 }
+
+func init() {
+	register(&Rule{
+		ID: "SC", Props: []string{"C07", "C11"}, Min: 1,
+		Doc: `a circular window is never refused: in BioSequence.Subsequence every return of an error is guarded by a condition that requires !circular (or lies in the non-circular branch) —
+"a circular subsequence equals the matching window of the sequence concatenated with itself" for every (from, to), in particular for a window starting before the origin (negative from),
+which in-silico PCR produces when a primer with its flank sits at the very beginning of a circular template.`,
+		Run: runSC,
+	})
+}
+
+func runSC(c *Ctx, s *Sink) {
+	fd, p := c.FindFunc("pkg/obiseq", "(*BioSequence).Subsequence")
+	key := "pkg/obiseq.(*BioSequence).Subsequence:circular-never-refused"
+	if fd == nil {
+		s.Undecided(nil, key, 0, "function not found")
+		return
+	}
+	info := p.TypesInfo
+	var circ types.Object
+	for _, id := range flattenParams(fd.Type.Params) {
+		if id != nil {
+			if b, ok := info.ObjectOf(id).Type().Underlying().(*types.Basic); ok && b.Kind() == types.Bool {
+				circ = info.ObjectOf(id)
+			}
+		}
+	}
+	if circ == nil {
+		s.Undecided(nil, key, fd.Pos(), "no boolean 'circular' parameter")
+		return
+	}
+	// requiresLinear: cond (as a conjunction) contains !circular
+	requiresLinear := func(cond ast.Expr) bool {
+		for _, cj := range conjuncts(cond) {
+			if u, ok := ast.Unparen(cj).(*ast.UnaryExpr); ok && u.Op == token.NOT && rootObj(info, u.X) == circ {
+				return true
+			}
+		}
+		return false
+	}
+	isCirc := func(cond ast.Expr) bool { return rootObj(info, cond) == circ }
+	var bad []string
+	n := 0
+	var stack []ast.Node
+	ast.Inspect(fd.Body, func(nd ast.Node) bool {
+		if nd == nil {
+			stack = stack[:len(stack)-1]
+			return true
+		}
+		stack = append(stack, nd)
+		r, ok := nd.(*ast.ReturnStmt)
+		if !ok || len(r.Results) == 0 {
+			return true
+		}
+		last := ast.Unparen(r.Results[len(r.Results)-1])
+		if id, ok := last.(*ast.Ident); ok && id.Name == "nil" {
+			return true
+		}
+		if !isErrorType(info.TypeOf(last)) {
+			return true
+		}
+		if _, isCall := last.(*ast.CallExpr); !isCall {
+			return true // propagates an error of a callee
+		}
+		n++
+		guarded := false
+		for k := len(stack) - 2; k >= 0; k-- {
+			ifs, ok := stack[k].(*ast.IfStmt)
+			if !ok {
+				continue
+			}
+			inBody := k+1 < len(stack) && stack[k+1] == ast.Node(ifs.Body)
+			inElse := k+1 < len(stack) && ifs.Else != nil && stack[k+1] == ast.Node(ifs.Else)
+			if inBody && requiresLinear(ifs.Cond) {
+				guarded = true
+			}
+			if inElse && isCirc(ast.Unparen(ifs.Cond)) {
+				guarded = true
+			}
+		}
+		if !guarded {
+			bad = append(bad, c.Pos(r.Pos()))
+		}
+		return true
+	})
+	if len(bad) > 0 {
+		s.Fail(nil, key, fd.Pos(), "an error is returned whatever the value of 'circular' at "+strings.Join(bad, ", ")+": a circular window that starts before the origin (from < 0) is refused, so the amplicon of a primer site lying at the very beginning of a circular template is lost (obipcr aborts) while the same site elsewhere on the circle is reported")
+	} else {
+		s.Pass(nil, key, fd.Pos(), fmt.Sprintf("%d error returns, each requiring !circular", n))
+	}
+}
